@@ -38,6 +38,8 @@ pub async fn handle(
             ))?;
     command.message_expiry = topic.message_expiry;
     command.max_topic_size = topic.max_topic_size;
+    // Journal the ID that was actually assigned, so that replay cannot derive another one.
+    command.topic_id = Some(topic.topic_id);
     let response = mapper::map_topic(topic).await;
 
     let system = system.downgrade();
